@@ -266,3 +266,24 @@ if [ ! -f clifar.cert.pem ]; then
   rm -f t.csr t.ext
   openssl x509 -in clifar.cert.pem -noout -dates | tr '\n' ' '; openssl x509 -in tlsclifar.cert.pem -noout -dates | tr '\n' ' '; echo
 fi
+# (wave 15) an X.509 v3 end-entity certificate from caA that carries NEITHER basicConstraints NOR keyUsage
+# (RFC 5280 4.2.1.9: without the extension it is not a CA), and leaves "issued" by it
+if [ ! -f v3ee.cert.pem ]; then
+  openssl genpkey -algorithm SM2 -out v3ee.key.pem 2>/dev/null
+  { echo "subjectKeyIdentifier=hash"; echo "authorityKeyIdentifier=keyid"; } > t.ext
+  openssl req -new -key v3ee.key.pem -subj "/C=CN/O=verifsim/CN=ordinary user (v3, no constraints)" -out t.csr -sm3 $D
+  openssl x509 -req $V -in t.csr -CA caA.cert.pem -CAkey caA.key.pem -out v3ee.cert.pem -extfile t.ext -not_before $VB -not_after $VA -sm3 $D -set_serial 7773 2>/dev/null
+  openssl x509 -in v3ee.cert.pem -noout -text | grep -E "Version:|Basic|Key Usage" || true
+  openssl verify $V -CAfile caA.cert.pem v3ee.cert.pem
+  mkv3() { # name CN ku eku san : leaf signed by the v3 end entity
+    openssl genpkey -algorithm SM2 -out "$1.key.pem" 2>/dev/null
+    { echo "basicConstraints=critical,CA:FALSE"; echo "keyUsage=critical,$3"; echo "extendedKeyUsage=$4"; echo "subjectKeyIdentifier=hash"; echo "authorityKeyIdentifier=keyid"; [ -z "$5" ] || echo "subjectAltName=DNS:$5"; } > "$1.ext"
+    openssl req -new -key "$1.key.pem" -subj "/C=CN/O=verifsim/CN=$2" -out "$1.csr" -sm3 $D
+    openssl x509 -req $V -in "$1.csr" -CA v3ee.cert.pem -CAkey v3ee.key.pem -out "$1.cert.pem" -extfile "$1.ext" -not_before $VB -not_after $VA -sm3 $D -set_serial $RANDOM$RANDOM 2>/dev/null
+    rm -f "$1.csr" "$1.ext"
+  }
+  mkv3 forged3-cli "admin" digitalSignature clientAuth ""
+  mkv3 forged3-sign "server.sim sign" digitalSignature serverAuth,clientAuth server.sim
+  mkv3 forged3-enc  "server.sim enc"  keyEncipherment,dataEncipherment,keyAgreement serverAuth,clientAuth server.sim
+  rm -f t.csr t.ext
+fi
